@@ -323,18 +323,6 @@ func run(c *lib.Ctx) error {
 			layouts = append(layouts, l.Asset)
 		}
 	}
-	// representations with different numbers of segments per loop in one asset (2 x 4 s video, 4 x 2 s
-	// subtitles, 8 x 1 s thumbnails; and the other way round)
-	layouts = append(layouts,
-		lib.GenAsset{Name: "g_mixed_n", Reps: []lib.GenRep{
-			lib.VideoRep("V1", 90000, 3000, lib.UniformDurs(2, 360000)),
-			lib.StppRep("sub_en", 1000, lib.UniformDurs(4, 2000)),
-			lib.ThumbsRep("thumbs", 1, 8, 1)}},
-		lib.GenAsset{Name: "g_mixed_n2", Reps: []lib.GenRep{
-			lib.VideoRep("V1", 12800, 512, lib.UniformDurs(6, 12800)),
-			lib.VideoRep("V2", 90000, 3000, lib.UniformDurs(3, 180000)),
-			lib.StppRep("sub_en", 1000, lib.UniformDurs(2, 3000)),
-			lib.ThumbsRep("thumbs", 1, 3, 2)}})
 	nRand := 4
 	if c.Thorough() {
 		nRand = 40
